@@ -42,7 +42,7 @@ def make_gmat(X, pl, phased, rng):
 
 def one(cid, est, rng, big, wide=False):
     Cls, name = cls_of(est)
-    pl = 1 if (est == "molecular" and rng.random() < 0.3) else 2
+    pl = (1 if rng.random() < 0.5 else 2) if est == "molecular" else 2
     if big:
         n = rng.randrange(4, 31); m = rng.randrange(2, 11)
     else:
@@ -92,7 +92,13 @@ def one(cid, est, rng, big, wide=False):
                 c["w"] = [2] * m; kw["mkrwt"] = 2.0
     c["X"] = X.tolist()
     gm = make_gmat(X, pl, rng.random() < 0.5, rng)
-    taxa0 = list(gm.taxa); grp0 = list(gm.taxa_grp)          # the labels the rows of X were created with
+    if rng.random() < 0.5:
+        # the genotype matrix handed to the estimator is itself a SELECTION (here: a permutation) of the one that was built:
+        # the relationship matrix of permuted taxa is the permuted relationship matrix, labels included
+        pm = list(range(n)); rng.shuffle(pm)
+        gm = gm.select_taxa(np.array(pm)) if rng.random() < 0.7 else gm.select(np.array(pm), axis=gm.taxa_axis)
+        X = X[pm]; c["X"] = X.tolist(); c["selected"] = True
+    taxa0 = list(gm.taxa); grp0 = list(gm.taxa_grp)          # the labels the rows of X carry
     if rng.random() < 0.4 and n >= 2:
         # the genotype matrix has been used before: another relationship matrix was built from it and then reordered /
         # sorted / grouped IN PLACE (nothing done to that matrix may reach back into its source)
